@@ -83,9 +83,13 @@ class Check:
         self.tt_decisions += getattr(res, "tt_decisions", 0)
         for e in res.errors:
             self.harness_error("%s: %s" % (part, e))
-        for leaf in res.leaves:
-            s = json.dumps(sig_of(leaf) if sig_of else leaf, sort_keys=True, default=str)
-            self.sigs.add(hashlib.sha1((part + s).encode()).hexdigest())
+        if getattr(res, "sigs", None):
+            for h in res.sigs:
+                self.sigs.add(part + h)
+        else:
+            for leaf in res.leaves:
+                s = json.dumps(sig_of(leaf) if sig_of else leaf, sort_keys=True, default=str)
+                self.sigs.add(hashlib.sha1((part + s).encode()).hexdigest())
         n = 0
         for leaf in res.leaves:
             if n >= sample or len(self.samples) >= 40:
